@@ -89,6 +89,16 @@ CLAIMED = {
               "post-update parameters (fingerprint criterion), carried-forward criterion, stop right after the first request, "
               "best parameters; ValidationLoss improvement / patience / early-stopping model on harness-chosen loss "
               "sequences with its own generators, directly and through solve.", "4/C19"),
+    "C10": _c("Hypothesis-generated architectures / transforms / calling conventions against an independent numpy forward pass",
+              "create_PINN / create_SPINN / create_HYPERPINN wrappers vs numpy forward passes built from the weight leaves: "
+              "transform composition order, output slices, shared outputs, trailing component axis, scalar / (1,) time, bare "
+              "network parameters, SPINN tensor grid with per-output embedding blocks, hyper-network weight generation in "
+              "leaf order.", "4/C10"),
+    "C11": _c("Hypothesis-generated separable networks; differential SPINN (forward mode, grid) vs pointwise twin PINN (reverse mode)",
+              "Operators, built-in dynamic losses and boundary / initial / normalisation / dynamic loss terms evaluated on "
+              "a SPINN are compared, grid index by grid index (resp. on the explicit product batch), with the same function "
+              "wrapped as a genuine PINN whose module evaluates sum_r prod_d f_d at one point with the same weights.",
+              "4/C11"),
     "C12": _c("Hypothesis-generated parameter batches / heterogeneity maps against a per-sample numpy loop",
               "Every term of single losses with any non-empty subset of batched keys vs per-sample reference; caller's "
               "parameters unchanged; heterogeneous keys replaced inside the dynamic term only; gradient w.r.t. an "
